@@ -236,7 +236,7 @@ def gen_cases(tier, seed):
             setup["env"] = dict(cc["env"])
         elif src == "c11":
             cc = c11.gen_case(rng, 0)
-            if any(p[0] == "sub" and p[1]["inner"] in ("var",) for p in cc["parts"]):
+            if any(p[0] == "sub" and p[1]["inner"] in ("var", "function", "function2") for p in cc["parts"]):
                 continue
             if cc["ctx"] in ("unq", "here", "assign") and any(
                     p[0] == "sub" and p[1]["inner"] == "quoted-args" and any(set(c11.INNER_DECOYS[j][0]) & set("()\\") for j in p[1]["decoys"])
